@@ -113,6 +113,11 @@ func (t *Tree) uncleCandidates(parent *TNode) []*TNode {
 	return out
 }
 
+// MinerPool: funded key addresses and addresses that hold nothing before their first reward.
+func MinerPool() []common.Address {
+	return []common.Address{Keys[4].Addr, Keys[5].Addr, Keys[6].Addr, FreshMiners[0], FreshMiners[1]}
+}
+
 // DrawTree generates a block tree on a fresh builder for the configuration.
 func DrawTree(t *rapid.T, nc NamedConfig, o TreeOpts) *Tree {
 	g := Genesis(nc.Config, 0)
@@ -192,7 +197,7 @@ func DrawTree(t *rapid.T, nc NamedConfig, o TreeOpts) *Tree {
 			if rapid.IntRange(0, 3).Draw(t, "jitter") == 0 {
 				delta = rapid.SampledFrom(o.TimeDeltas).Draw(t, "delta")
 			}
-			spec := BlockSpec{TimeDelta: delta, Coinbase: Keys[4+rapid.IntRange(0, 2).Draw(t, "miner")].Addr}
+			spec := BlockSpec{TimeDelta: delta, Coinbase: MinerPool()[rapid.IntRange(0, 4).Draw(t, "miner")]}
 			if rapid.IntRange(0, 4).Draw(t, "extra") == 0 {
 				spec.Extra = rapid.SliceOfN(rapid.Byte(), 0, 32).Draw(t, "extradata")
 			}
